@@ -22,7 +22,9 @@ Record Rel (m : mq) (r : rstate) : Prop := {
            m_cur m = (if r_a r <? r_w r then Some (r_a r) else None) /\
            (exists len, m_q m = seqN (r_w r) len /\ r_w r + N.of_nat len = r_n r) /\
            (r_w r = r_a r -> r_w r = r_n r);
-  R_dead : r_lost r = true -> m_cur m = None /\ m_q m = []
+  R_dead : r_lost r = true -> m_cur m = None /\ m_q m = [];
+  R_obs : m_obs m = r_watch r;
+  R_nobs : m_nobs m = r_nw r
 }.
 
 Lemma rel_init : Rel mq_init r_init.
@@ -43,8 +45,92 @@ Lemma filter_ext_called (f g : list N) l :
   filter (fun k => negb (memN k f)) l = filter (fun k => negb (memN k g)) l.
 Proof. intros H. apply filter_ext. intros k. now rewrite H. Qed.
 
-Ltac rel_fields := constructor; cbn [m_next m_lost m_called m_cur m_q r_n r_lost r_res r_w r_a].
+Ltac rel_fields := constructor;
+  cbn [m_next m_lost m_called m_cur m_q m_obs m_nobs r_n r_lost r_res r_w r_a r_watch r_nw].
 Ltac absurd_flag := let H := fresh in intros H; discriminate H.
+
+(* ---- the loss: telling the observers one after the other ---- *)
+(* state of the two folds while the observers are told: [a], [w] are the reference's counters (fixed) *)
+Record FRel (a w : N) (s : mq) (ev1 : list qev) (acc : list qev * N * list N * N) : Prop := {
+  F_ev : ev1 = fst (fst (fst acc));
+  F_next : m_next s = snd (fst (fst acc));
+  F_called : forall k, memN k (m_called s) = memN k (snd (fst acc));
+  F_nobs : m_nobs s = snd acc;
+  F_lost : m_lost s = true;
+  F_cur : m_cur s = (if a <? w then Some a else None);
+  F_q : if a <? w then exists len, m_q s = seqN w len /\ w + N.of_nat len = snd (fst (fst acc))
+        else m_q s = [] /\ (forall k, a <= k < snd (fst (fst acc)) -> memN k (snd (fst acc)) = true);
+  F_le : w <= snd (fst (fst acc))
+}.
+
+Ltac ff := constructor; cbn [fst snd m_next m_called m_nobs m_lost m_cur m_q m_obs].
+
+Lemma tell_step a w s ev1 acc wb : FRel a w s ev1 acc ->
+  FRel a w (fst (run_cb (s, ev1) wb)) (snd (run_cb (s, ev1) wb)) (tell (a <? w) acc wb).
+Proof.
+  destruct acc as [[[ev n] res] nw]. intros [Fev Fn Fc Fnw Fl Fcur Fq Fle]. cbn [fst snd] in *. subst ev1.
+  destruct wb as [wid b]. unfold run_cb, tell. cbn [fst snd].
+  destruct b.
+  - (* plain *) ff.
+    + reflexivity.
+    + exact Fn.
+    + exact Fc.
+    + exact Fnw.
+    + exact Fl.
+    + exact Fcur.
+    + exact Fq.
+    + exact Fle.
+  - (* nested *) ff.
+    + now rewrite Fnw.
+    + exact Fn.
+    + exact Fc.
+    + now rewrite Fnw.
+    + exact Fl.
+    + exact Fcur.
+    + exact Fq.
+    + exact Fle.
+  - (* submit *)
+    unfold submit, maybe_issue. cbn [m_cur m_q m_lost m_called m_next m_obs m_nobs]. rewrite Fcur, Fl.
+    destruct (a <? w) eqn:Ein.
+    + (* something is in flight: the command is queued *)
+      destruct Fq as (len & Hq & Hlen). cbn [fst snd]. rewrite app_nil_r. ff.
+      * reflexivity.
+      * lia.
+      * exact Fc.
+      * exact Fnw.
+      * first [exact Fl | reflexivity].
+      * rewrite Ein. reflexivity.
+      * rewrite Ein. exists (S len). rewrite seqN_snoc, Hq, Fn. split; [do 2 f_equal; lia|lia].
+      * lia.
+    + (* nothing in flight: failed at once from the stored disconnect failure *)
+      destruct Fq as [Hq Hall]. rewrite Hq. cbn [app fst snd]. rewrite Fn. ff.
+      * reflexivity.
+      * lia.
+      * intros k. cbn [memN]. now rewrite Fc.
+      * exact Fnw.
+      * reflexivity.
+      * rewrite Ein. reflexivity.
+      * rewrite Ein. split; [reflexivity|]. intros k Hk. cbn [memN].
+        destruct (N.eqb_spec n k) as [|Hne]; [reflexivity|]. cbn [orb]. apply Hall. lia.
+      * lia.
+Qed.
+
+Lemma tell_fold a w obs : forall s ev1 acc, FRel a w s ev1 acc ->
+  FRel a w (fst (fold_left run_cb obs (s, ev1))) (snd (fold_left run_cb obs (s, ev1)))
+       (fold_left (tell (a <? w)) obs acc).
+Proof.
+  induction obs as [|wb obs IH]; intros s ev1 acc H; cbn [fold_left]; [exact H|].
+  pose proof (tell_step a w s ev1 acc wb H) as H1.
+  destruct (run_cb (s, ev1) wb) as [s2 ev2]. cbn [fst snd] in H1. exact (IH s2 ev2 _ H1).
+Qed.
+
+Lemma filter_none (res : list N) lo len :
+  (forall k, lo <= k < lo + N.of_nat len -> memN k res = true) ->
+  filter (fun k => negb (memN k res)) (seqN lo len) = [].
+Proof.
+  revert lo. induction len as [|len IH]; intros lo H; cbn [seqN filter]; [reflexivity|].
+  rewrite (H lo) by lia. cbn [negb]. apply IH. intros k Hk. apply H. lia.
+Qed.
 
 Lemma step_sim m r o : Rel m r ->
   match m_step m o, r_step r o with
@@ -53,11 +139,12 @@ Lemma step_sim m r o : Rel m r ->
   | _, _ => False
   end.
 Proof.
-  intros [Hn Hl Hc (Hle1 & Hle2 & Hle3) Hlive Hdead].
-  destruct o as [|k| |]; cbn [m_step r_step].
+  intros [Hn Hl Hc (Hle1 & Hle2 & Hle3) Hlive Hdead Hobs Hnobs].
+  destruct o as [|k| |b|]; cbn [m_step r_step].
   - (* submit *)
+    unfold submit.
     destruct (r_lost r) eqn:El.
-    + destruct (Hdead eq_refl) as [Hcur Hq]. unfold maybe_issue. cbn [m_cur m_q m_lost m_called m_next].
+    + destruct (Hdead eq_refl) as [Hcur Hq]. unfold maybe_issue. cbn [m_cur m_q m_lost m_called m_next m_obs m_nobs].
       rewrite Hcur, Hq, Hl. cbn [app]. rewrite Hn. split; [reflexivity|]. rel_fields.
       * lia.
       * reflexivity.
@@ -65,11 +152,12 @@ Proof.
       * lia.
       * absurd_flag.
       * intros _. split; reflexivity.
+      * exact Hobs.
+      * exact Hnobs.
     + destruct (Hlive eq_refl) as (Hcur & (len & Hq & Hlen) & Hidle).
-      unfold maybe_issue. cbn [m_cur m_q m_lost m_called m_next]. rewrite Hcur, Hl.
+      unfold maybe_issue. cbn [m_cur m_q m_lost m_called m_next m_obs m_nobs]. rewrite Hcur, Hl.
       destruct (N.eqb_spec (r_w r) (r_a r)) as [E|E].
-      * (* nothing awaiting a reply: written at once *)
-        assert (Hlt : (r_a r <? r_w r) = false) by (apply N.ltb_ge; lia). rewrite Hlt.
+      * assert (Hlt : (r_a r <? r_w r) = false) by (apply N.ltb_ge; lia). rewrite Hlt.
         assert (len = 0%nat) by (specialize (Hidle E); lia). subst len.
         rewrite Hq. cbn [seqN app]. rewrite Hn. split; [f_equal; f_equal; lia|]. rel_fields.
         -- lia.
@@ -79,6 +167,8 @@ Proof.
         -- intros _. assert (Hlt2 : (r_a r <? r_w r + 1) = true) by (apply N.ltb_lt; lia). rewrite Hlt2.
            split; [f_equal; lia|]. split; [exists 0%nat; split; [reflexivity|lia]|lia].
         -- absurd_flag.
+        -- exact Hobs.
+        -- exact Hnobs.
       * assert (Hlt : (r_a r <? r_w r) = true) by (apply N.ltb_lt; lia). rewrite Hlt.
         split; [reflexivity|]. rel_fields.
         -- lia.
@@ -88,6 +178,8 @@ Proof.
         -- intros _. rewrite Hlt. split; [reflexivity|]. split; [|lia].
            exists (S len). rewrite seqN_snoc, Hq. split; [do 2 f_equal; lia|lia].
         -- absurd_flag.
+        -- exact Hobs.
+        -- exact Hnobs.
   - (* cancel *)
     rewrite Hn, Hc.
     destruct ((k <? r_n r) && negb (memN k (r_res r))).
@@ -98,13 +190,15 @@ Proof.
       * lia.
       * exact Hlive.
       * exact Hdead.
+      * exact Hobs.
+      * exact Hnobs.
     + split; [reflexivity|]. constructor; try assumption. lia.
   - (* reply *)
     rewrite Hl. destruct (r_lost r) eqn:El; [exact I|]. cbn [orb].
     destruct (Hlive eq_refl) as (Hcur & (len & Hq & Hlen) & Hidle). rewrite Hcur.
     destruct (N.ltb_spec (r_a r) (r_w r)) as [Hlt|Hge]; cbn [negb]; [|exact I].
     assert (Hw : r_w r = r_a r + 1) by lia.
-    unfold maybe_issue. cbn [m_cur m_q m_lost m_called m_next]. rewrite Hq, Hc.
+    unfold maybe_issue. cbn [m_cur m_q m_lost m_called m_next m_obs m_nobs]. rewrite Hq, Hc.
     destruct len as [|len].
     + assert (Hmore : (r_w r <? r_n r) = false) by (apply N.ltb_ge; lia). rewrite Hmore.
       cbn [seqN]. split; [reflexivity|]. rel_fields.
@@ -115,6 +209,8 @@ Proof.
       * intros _. assert (Hx : (r_a r + 1 <? r_w r) = false) by (apply N.ltb_ge; lia). rewrite Hx.
         split; [reflexivity|]. split; [exists 0%nat; split; [reflexivity|lia]|lia].
       * absurd_flag.
+      * exact Hobs.
+      * exact Hnobs.
     + assert (Hmore : (r_w r <? r_n r) = true) by (apply N.ltb_lt; lia). rewrite Hmore.
       cbn [seqN]. split; [reflexivity|]. rel_fields.
       * first [exact Hn | reflexivity].
@@ -124,23 +220,83 @@ Proof.
       * intros _. assert (Hx : (r_a r + 1 <? r_w r + 1) = true) by (apply N.ltb_lt; lia). rewrite Hx.
         split; [f_equal; lia|]. split; [exists len; split; [reflexivity|lia]|lia].
       * absurd_flag.
+      * exact Hobs.
+      * exact Hnobs.
+  - (* a notification request *)
+    rewrite Hl. destruct (r_lost r) eqn:El.
+    + (* after the loss: told at once; nothing is in flight *)
+      destruct (Hdead eq_refl) as [Hcur Hq]. rewrite Hnobs, Hcur, Hq. unfold run_cb, tell. cbn [fst snd].
+      destruct b.
+      * split; [reflexivity|]. rel_fields.
+        -- exact Hn.
+        -- reflexivity.
+        -- exact Hc.
+        -- lia.
+        -- absurd_flag.
+        -- intros _. split; reflexivity.
+        -- reflexivity.
+        -- reflexivity.
+      * cbn [app m_nobs]. split; [reflexivity|]. rel_fields.
+        -- exact Hn.
+        -- reflexivity.
+        -- exact Hc.
+        -- lia.
+        -- absurd_flag.
+        -- intros _. split; reflexivity.
+        -- reflexivity.
+        -- reflexivity.
+      * unfold submit, maybe_issue. cbn [m_cur m_q m_lost m_called m_next m_obs m_nobs app].
+        rewrite Hn. split; [reflexivity|]. rel_fields.
+        -- lia.
+        -- reflexivity.
+        -- intros j. cbn [memN]. now rewrite Hc.
+        -- lia.
+        -- absurd_flag.
+        -- intros _. split; reflexivity.
+        -- reflexivity.
+        -- reflexivity.
+    + split; [reflexivity|]. rel_fields.
+      * exact Hn.
+      * reflexivity.
+      * exact Hc.
+      * lia.
+      * intros _. exact (Hlive eq_refl).
+      * absurd_flag.
+      * now rewrite Hobs, Hnobs.
+      * now rewrite Hnobs.
   - (* loss *)
     rewrite Hl. destruct (r_lost r) eqn:El; [exact I|].
-    destruct (Hlive eq_refl) as (Hcur & (len & Hq & Hlen) & Hidle). rewrite Hcur, Hq.
-    assert (Hout : (match (if r_a r <? r_w r then Some (r_a r) else None) with Some c => [c] | None => [] end)
-                   ++ seqN (r_w r) len = seqN (r_a r) (N.to_nat (r_n r - r_a r))).
-    { destruct (N.ltb_spec (r_a r) (r_w r)) as [Hlt|Hge].
-      - replace (N.to_nat (r_n r - r_a r)) with (S len) by lia. cbn [seqN app]. do 2 f_equal. lia.
-      - assert (len = 0%nat) by (assert (Hx : r_w r = r_a r) by lia; specialize (Hidle Hx); lia). subst len.
-        replace (N.to_nat (r_n r - r_a r)) with 0%nat by lia. reflexivity. }
-    rewrite Hout. unfold unresolved. rewrite (filter_ext_called _ _ _ Hc).
-    split; [reflexivity|]. rel_fields.
-    + first [exact Hn | reflexivity].
+    destruct (Hlive eq_refl) as (Hcur & (len & Hq & Hlen) & Hidle).
+    set (s0 := {| m_cur := m_cur m; m_q := m_q m; m_called := m_called m; m_lost := true;
+                  m_next := m_next m; m_obs := []; m_nobs := m_nobs m |}).
+    assert (HF0 : FRel (r_a r) (r_w r) s0 [] ([], r_n r, r_res r, r_nw r)).
+    { constructor; cbn [fst snd s0 m_next m_called m_nobs m_lost m_cur m_q]; auto.
+      destruct (N.ltb_spec (r_a r) (r_w r)) as [Hlt|Hge].
+      - exists len. split; [exact Hq|exact Hlen].
+      - assert (Hwa : r_w r = r_a r) by lia. specialize (Hidle Hwa).
+        assert (len = 0%nat) by lia. subst len. split; [exact Hq|]. intros j Hj. lia. }
+    pose proof (tell_fold (r_a r) (r_w r) (m_obs m) s0 [] _ HF0) as HF. rewrite Hobs in HF |- *.
+    destruct (fold_left run_cb (r_watch r) (s0, [])) as [s1 ev1].
+    destruct (fold_left (tell (r_a r <? r_w r)) (r_watch r) ([], r_n r, r_res r, r_nw r)) as [[[ev2 n2] res2] nw2].
+    destruct HF as [Fev Fn Fc Fnw Fl Fcur Fq Fle]. cbn [fst snd] in *. subst ev2.
+    assert (Hout : filter (fun k => negb (memN k (m_called s1)))
+                     ((match m_cur s1 with Some c => [c] | None => [] end) ++ m_q s1)
+                   = unresolved res2 (r_a r) (N.to_nat (n2 - r_a r))).
+    { unfold unresolved. rewrite Fcur. destruct (N.ltb_spec (r_a r) (r_w r)) as [Hlt|Hge].
+      - destruct Fq as (len2 & Hq2 & Hlen2). rewrite Hq2.
+        replace (N.to_nat (n2 - r_a r)) with (S len2) by lia. cbn [seqN app].
+        replace (r_a r + 1) with (r_w r) by lia. now apply filter_ext_called.
+      - destruct Fq as [Hq2 Hall]. rewrite Hq2. cbn [app filter]. symmetry. apply filter_none.
+        intros j Hj. apply Hall. lia. }
+    rewrite Hout. split; [reflexivity|]. rel_fields.
+    + exact Fn.
     + reflexivity.
-    + intros j. rewrite !memN_app, Hc. reflexivity.
+    + intros j. rewrite !memN_app, Fc. reflexivity.
     + lia.
     + absurd_flag.
     + intros _. split; reflexivity.
+    + reflexivity.
+    + exact Fnw.
 Qed.
 
 Lemma run_sim ops : forall m r, Rel m r -> m_run m ops = r_run r ops.
@@ -155,9 +311,12 @@ Theorem model_is_reference_cancel ops : q_run ops = q_ref ops.
 Proof. apply run_sim. exact rel_init. Qed.
 
 (* ---- what the reference machine guarantees (the property, at command level) ---- *)
-Definition ev_res (e : qev) : list N := match e with QRes k _ => [k] | QWrote _ => [] end.
+Definition ev_res (e : qev) : list N := match e with QRes k _ => [k] | _ => [] end.
+Definition ev_note (e : qev) : list N := match e with QNote w => [w] | _ => [] end.
 Definition res_ids (tr : list (list qev)) : list N := flat_map ev_res (concat tr).
+Definition note_ids (tr : list (list qev)) : list N := flat_map ev_note (concat tr).
 Definition is_wrote (e : qev) : bool := match e with QWrote _ => true | _ => false end.
+Definition quiet (es : list qev) : bool := forallb (fun e => negb (is_wrote e)) es.
 
 Fixpoint r_exec (s : rstate) (ops : list qop) : option (rstate * list (list qev)) :=
   match ops with
@@ -199,110 +358,12 @@ Proof.
   rewrite seqN_In. lia.
 Qed.
 
-Lemma res_ids_disc l : flat_map ev_res (map (fun k => QRes k QDisc) l) = l.
+Lemma res_of_disc l : flat_map ev_res (map (fun k => QRes k QDisc) l) = l.
 Proof. induction l as [|x l IH]; cbn; [reflexivity|now rewrite IH]. Qed.
-
-Record WF (s : rstate) : Prop := {
-  W_lt : forall k, memN k (r_res s) = true -> k < r_n s;
-  W_ans : forall k, k < r_a s -> memN k (r_res s) = true;
-  W_le : r_a s <= r_w s /\ r_w s <= r_n s;
-  W_dead : r_lost s = true -> forall k, k < r_n s -> memN k (r_res s) = true
-}.
-
-Lemma wf_init : WF r_init.
-Proof. constructor; cbn; try lia; intros; try discriminate; lia. Qed.
-
-(* one step: what it resolves was unresolved, is resolved afterwards, nothing is forgotten *)
-Lemma step_facts s o s' es : WF s -> r_step s o = Some (s', es) ->
-  WF s' /\ NoDup (flat_map ev_res es) /\
-  (forall k, In k (flat_map ev_res es) -> memN k (r_res s) = false) /\
-  (forall k, memN k (r_res s') = true <-> memN k (r_res s) = true \/ In k (flat_map ev_res es)) /\
-  (r_lost s = true -> r_lost s' = true /\ forallb (fun e => negb (is_wrote e)) es = true).
-Proof.
-  intros [Wlt Wans [Wle1 Wle2] Wdead] H. destruct o as [|k| |]; cbn [r_step] in H.
-  - (* submit *)
-    assert (Hnew : memN (r_n s) (r_res s) = false).
-    { destruct (memN (r_n s) (r_res s)) eqn:E; [|reflexivity]. apply Wlt in E. lia. }
-    destruct (r_lost s) eqn:El.
-    + injection H as <- <-. split; [|split; [|split; [|split]]].
-      * constructor; cbn [r_n r_res r_a r_w r_lost].
-        -- intros k. cbn [memN]. rewrite orb_true_iff, N.eqb_eq. intros [<-|Hk]; [lia|]. apply Wlt in Hk. lia.
-        -- intros k Hk. cbn [memN]. rewrite (Wans k Hk). apply orb_true_r.
-        -- lia.
-        -- intros _ k Hk. cbn [memN]. destruct (N.eqb_spec (r_n s) k) as [|Hne]; [reflexivity|].
-           cbn [orb]. apply (Wdead eq_refl). lia.
-      * cbn. constructor; [tauto|constructor].
-      * cbn. intros k [<-|[]]. exact Hnew.
-      * intros k. cbn [r_res memN flat_map ev_res app In]. rewrite orb_true_iff, N.eqb_eq. tauto.
-      * intros _. split; reflexivity.
-    + destruct (r_w s =? r_a s); injection H as <- <-.
-      * split; [|split; [constructor|split; [intros k []|split; [intros k; cbn; tauto|intros Hx; discriminate Hx]]]].
-        constructor; cbn [r_n r_res r_a r_w r_lost]; [intros k Hk; apply Wlt in Hk; lia|exact Wans|lia|intros Hx; discriminate Hx].
-      * split; [|split; [constructor|split; [intros k []|split; [intros k; cbn; tauto|intros Hx; discriminate Hx]]]].
-        constructor; cbn [r_n r_res r_a r_w r_lost]; [intros k Hk; apply Wlt in Hk; lia|exact Wans|lia|intros Hx; discriminate Hx].
-  - (* cancel *)
-    destruct ((k <? r_n s) && negb (memN k (r_res s))) eqn:E.
-    + injection H as <- <-. apply andb_prop in E. destruct E as [E1 E2].
-      apply N.ltb_lt in E1. apply negb_true_iff in E2.
-      split; [|split; [|split; [|split]]].
-      * constructor; cbn [r_n r_res r_a r_w r_lost].
-        -- intros j. cbn [memN]. rewrite orb_true_iff, N.eqb_eq. intros [<-|Hj]; [exact E1|now apply Wlt].
-        -- intros j Hj. cbn [memN]. rewrite (Wans j Hj). apply orb_true_r.
-        -- lia.
-        -- intros Hl j Hj. cbn [memN]. rewrite (Wdead Hl j Hj). apply orb_true_r.
-      * cbn. constructor; [tauto|constructor].
-      * cbn. intros j [<-|[]]. exact E2.
-      * intros j. cbn [r_res memN flat_map ev_res app In]. rewrite orb_true_iff, N.eqb_eq. tauto.
-      * intros Hl. split; [exact Hl|reflexivity].
-    + injection H as <- <-.
-      split; [constructor; [exact Wlt|exact Wans|lia|exact Wdead]|].
-      split; [constructor|]. split; [intros j []|]. split; [intros j; cbn; tauto|].
-      intros Hl. split; [exact Hl|reflexivity].
-  - (* reply *)
-    destruct (r_lost s) eqn:El; [discriminate H|]. cbn [orb] in H.
-    destruct (N.ltb_spec (r_a s) (r_w s)) as [Hlt|Hge]; cbn [negb] in H; [|discriminate H].
-    injection H as <- <-.
-    assert (Hids : flat_map ev_res ((if memN (r_a s) (r_res s) then [] else [QRes (r_a s) QOk]) ++
-                                   (if r_w s <? r_n s then [QWrote (r_w s)] else []))
-                   = if memN (r_a s) (r_res s) then [] else [r_a s]).
-    { destruct (memN (r_a s) (r_res s)); destruct (r_w s <? r_n s); reflexivity. }
-    rewrite Hids.
-    split; [|split; [|split; [|split]]].
-    + constructor; cbn [r_n r_res r_a r_w r_lost].
-      * intros j. cbn [memN]. rewrite orb_true_iff, N.eqb_eq. intros [<-|Hj]; [lia|now apply Wlt].
-      * intros j Hj. cbn [memN]. destruct (N.eqb_spec (r_a s) j) as [|Hne]; [reflexivity|].
-        cbn [orb]. apply Wans. lia.
-      * destruct (N.ltb_spec (r_w s) (r_n s)); lia.
-      * intros Hx; discriminate Hx.
-    + destruct (memN (r_a s) (r_res s)); [constructor|constructor; [tauto|constructor]].
-    + intros j Hj. destruct (memN (r_a s) (r_res s)) eqn:E; [destruct Hj|].
-      destruct Hj as [<-|[]]. exact E.
-    + intros j. cbn [r_res memN]. rewrite orb_true_iff, N.eqb_eq.
-      destruct (memN (r_a s) (r_res s)) eqn:E; cbn [In]; [|tauto].
-      split; [intros [<-|Hj]; [left; exact E|left; exact Hj]|intros [Hj|[]]; right; exact Hj].
-    + intros Hx; discriminate Hx.
-  - (* loss *)
-    destruct (r_lost s) eqn:El; [discriminate H|]. injection H as <- <-.
-    rewrite res_ids_disc. unfold unresolved.
-    set (out := filter (fun k => negb (memN k (r_res s))) (seqN (r_a s) (N.to_nat (r_n s - r_a s)))).
-    assert (Hout : forall j, In j out <-> (r_a s <= j < r_n s /\ memN j (r_res s) = false)).
-    { intros j. unfold out. rewrite filter_In, seqN_In, negb_true_iff.
-      split; intros [H1 H2]; (split; [lia|exact H2]). }
-    split; [|split; [|split; [|split]]].
-    + constructor; cbn [r_n r_res r_a r_w r_lost].
-      * intros j. rewrite memN_app, orb_true_iff, memN_In, Hout. intros [[Hj _]|Hj]; [lia|now apply Wlt].
-      * intros j Hj. rewrite memN_app, (Wans j Hj). apply orb_true_r.
-      * lia.
-      * intros _ j Hj. rewrite memN_app, orb_true_iff, memN_In, Hout.
-        destruct (memN j (r_res s)) eqn:E; [right; reflexivity|left].
-        split; [|reflexivity]. split; [|exact Hj].
-        destruct (N.lt_ge_cases j (r_a s)) as [Hlt|Hge]; [|exact Hge].
-        rewrite (Wans j Hlt) in E. discriminate E.
-    + unfold out. apply NoDup_filter. apply seqN_NoDup.
-    + intros j Hj. apply Hout in Hj. tauto.
-    + intros j. cbn [r_res]. rewrite memN_app, orb_true_iff, memN_In. tauto.
-    + intros Hx; discriminate Hx.
-Qed.
+Lemma note_of_disc l : flat_map ev_note (map (fun k => QRes k QDisc) l) = [].
+Proof. induction l as [|x l IH]; cbn; [reflexivity|exact IH]. Qed.
+Lemma quiet_disc l : quiet (map (fun k => QRes k QDisc) l) = true.
+Proof. induction l as [|x l IH]; [reflexivity|exact IH]. Qed.
 
 Lemma NoDup_app_disj {A} (a b : list A) :
   NoDup a -> NoDup b -> (forall x, In x a -> ~ In x b) -> NoDup (a ++ b).
@@ -313,76 +374,450 @@ Proof.
   - apply IH; [exact Ha'|exact Hb|]. intros y Hy. apply Hd. now right.
 Qed.
 
-Lemma exec_facts ops : forall s s' tr, WF s -> r_exec s ops = Some (s', tr) ->
-  WF s' /\ NoDup (res_ids tr) /\
-  (forall k, In k (res_ids tr) -> memN k (r_res s) = false) /\
-  (forall k, memN k (r_res s') = true <-> memN k (r_res s) = true \/ In k (res_ids tr)) /\
-  (r_lost s = true -> forallb (fun e => negb (is_wrote e)) (concat tr) = true).
+(* ---- telling the observers: what the fold adds ---- *)
+Record TellFacts (infl : bool) (ws : list (N * wbeh)) (n : N) (res : list N) (nw : N)
+                 (d : list qev) (n' : N) (res' : list N) (nw' : N) : Prop := {
+  T_n : n <= n';
+  T_nw : nw <= nw';
+  T_res_nodup : NoDup (flat_map ev_res d);
+  T_res_range : forall k, In k (flat_map ev_res d) -> n <= k < n';
+  T_res_iff : forall k, memN k res' = true <-> memN k res = true \/ In k (flat_map ev_res d);
+  T_note_nodup : NoDup (flat_map ev_note d);
+  T_note_iff : forall w, In w (flat_map ev_note d) <-> In w (map fst ws) \/ nw <= w < nw';
+  T_quiet : quiet d = true;
+  T_all : infl = false -> forall k, n <= k < n' -> In k (flat_map ev_res d)
+}.
+
+Lemma tell_fold_facts infl ws : forall ev n res nw,
+  (forall w, In w (map fst ws) -> w < nw) -> NoDup (map fst ws) ->
+  exists d n' res' nw',
+    fold_left (tell infl) ws (ev, n, res, nw) = (ev ++ d, n', res', nw') /\
+    TellFacts infl ws n res nw d n' res' nw'.
+Proof.
+  induction ws as [|[wid b] ws IH]; intros ev n res nw Hlt Hnd.
+  - exists [], n, res, nw. cbn [fold_left]. rewrite app_nil_r. split; [reflexivity|].
+    constructor; cbn [flat_map map fst In quiet forallb].
+    1: lia. 1: lia. 1: constructor. 1: intros j [].
+    1: intros j; tauto. 1: constructor.
+    1:{ intros w. split; [tauto|intros [[]|Hx]; lia]. }
+    1: reflexivity.
+    intros _ j Hj. lia.
+  - cbn [map fst] in Hlt, Hnd. inversion Hnd as [|? ? Hnotin Hnd']; subst.
+    assert (Hwid : wid < nw) by (apply Hlt; now left).
+    assert (Hlt' : forall w, In w (map fst ws) -> w < nw) by (intros w Hw; apply Hlt; now right).
+    cbn [fold_left]. unfold tell at 2. cbn [fst snd].
+    destruct b.
+    + (* plain *)
+      destruct (IH (ev ++ [QNote wid]) n res nw Hlt' Hnd') as (d & n' & res' & nw' & Hf & F).
+      destruct F as [F1 F2 F3 F4 F5 F6 F7 F8 F9].
+      exists (QNote wid :: d), n', res', nw'. rewrite Hf, <- app_assoc. cbn [app]. split; [reflexivity|].
+      constructor; cbn [flat_map ev_res ev_note app quiet forallb is_wrote negb andb map fst].
+      1: exact F1. 1: exact F2. 1: exact F3. 1: exact F4. 1: exact F5.
+      1:{ constructor; [rewrite F7; intros [Hx|Hx]; [exact (Hnotin Hx)|lia]|exact F6]. }
+      1:{ intros w. cbn [In]. rewrite F7. tauto. }
+      1: exact F8. exact F9.
+    + (* nested: the child is told at once *)
+      assert (Hlt2 : forall w, In w (map fst ws) -> w < nw + 1) by (intros w Hw; specialize (Hlt' w Hw); lia).
+      destruct (IH (ev ++ [QNote wid; QNote nw]) n res (nw + 1) Hlt2 Hnd') as (d & n' & res' & nw' & Hf & F).
+      destruct F as [F1 F2 F3 F4 F5 F6 F7 F8 F9].
+      exists (QNote wid :: QNote nw :: d), n', res', nw'. rewrite Hf, <- app_assoc. cbn [app]. split; [reflexivity|].
+      constructor; cbn [flat_map ev_res ev_note app quiet forallb is_wrote negb andb map fst].
+      1: exact F1. 1: lia. 1: exact F3. 1: exact F4. 1: exact F5.
+      1:{ constructor.
+          - cbn [In]. rewrite F7. intros [Hx|[Hx|Hx]]; [lia|exact (Hnotin Hx)|lia].
+          - constructor; [rewrite F7; intros [Hx|Hx]; [specialize (Hlt' _ Hx); lia|lia]|exact F6]. }
+      1:{ intros w. cbn [In]. rewrite F7. split.
+          - intros [Hx|[Hx|[Hx|Hx]]]; [left; now left|right; lia|left; now right|right; lia].
+          - intros [[Hx|Hx]|Hx]; [now left|right; right; now left|].
+            destruct (N.eq_dec nw w) as [E|E]; [right; now left|right; right; right; lia]. }
+      1: exact F8. exact F9.
+    + (* submit *)
+      destruct infl.
+      * destruct (IH (ev ++ [QNote wid]) (n + 1) res nw Hlt' Hnd') as (d & n' & res' & nw' & Hf & F).
+        destruct F as [F1 F2 F3 F4 F5 F6 F7 F8 F9].
+        exists (QNote wid :: d), n', res', nw'. rewrite Hf, <- app_assoc. cbn [app]. split; [reflexivity|].
+        constructor; cbn [flat_map ev_res ev_note app quiet forallb is_wrote negb andb map fst].
+        1: lia. 1: exact F2. 1: exact F3.
+        1:{ intros j Hj. specialize (F4 j Hj). lia. }
+        1: exact F5.
+        1:{ constructor; [rewrite F7; intros [Hx|Hx]; [exact (Hnotin Hx)|lia]|exact F6]. }
+        1:{ intros w. cbn [In]. rewrite F7. tauto. }
+        1: exact F8. intros Hx; discriminate Hx.
+      * destruct (IH (ev ++ [QNote wid; QRes n QDisc]) (n + 1) (n :: res) nw Hlt' Hnd') as (d & n' & res' & nw' & Hf & F).
+        destruct F as [F1 F2 F3 F4 F5 F6 F7 F8 F9].
+        exists (QNote wid :: QRes n QDisc :: d), n', res', nw'. rewrite Hf, <- app_assoc. cbn [app]. split; [reflexivity|].
+        constructor; cbn [flat_map ev_res ev_note app quiet forallb is_wrote negb andb map fst].
+        1: lia. 1: exact F2.
+        1:{ constructor; [intros Hx; specialize (F4 n Hx); lia|exact F3]. }
+        1:{ intros j [<-|Hj]; [lia|specialize (F4 j Hj); lia]. }
+        1:{ intros j. rewrite F5. cbn [memN In]. rewrite orb_true_iff, N.eqb_eq. tauto. }
+        1:{ constructor; [rewrite F7; intros [Hx|Hx]; [exact (Hnotin Hx)|lia]|exact F6]. }
+        1:{ intros w. cbn [In]. rewrite F7. tauto. }
+        1: exact F8.
+        intros _ j Hj. cbn [In]. destruct (N.eq_dec n j) as [E|E]; [now left|right]. apply (F9 eq_refl). lia.
+Qed.
+
+Record WF (s : rstate) : Prop := {
+  W_lt : forall k, memN k (r_res s) = true -> k < r_n s;
+  W_ans : forall k, k < r_a s -> memN k (r_res s) = true;
+  W_le : r_a s <= r_w s /\ r_w s <= r_n s;
+  W_dead : r_lost s = true -> forall k, k < r_n s -> memN k (r_res s) = true;
+  W_wlt : forall w, In w (map fst (r_watch s)) -> w < r_nw s;
+  W_wnd : NoDup (map fst (r_watch s));
+  W_wdead : r_lost s = true -> r_watch s = []
+}.
+
+Lemma wf_init : WF r_init.
+Proof.
+  constructor; cbn; try lia; try constructor.
+  all: try (intros; first [discriminate | lia | contradiction | reflexivity]).
+Qed.
+
+(* what one step does to the commands (C) and to the notification requests (N) *)
+Record StepFacts (s : rstate) (es : list qev) (s' : rstate) : Prop := {
+  S_wf : WF s';
+  C_nodup : NoDup (flat_map ev_res es);
+  C_fresh : forall k, In k (flat_map ev_res es) -> memN k (r_res s) = false;
+  C_iff : forall k, memN k (r_res s') = true <-> memN k (r_res s) = true \/ In k (flat_map ev_res es);
+  C_quiet : r_lost s = true -> r_lost s' = true /\ quiet es = true;
+  N_nodup : NoDup (flat_map ev_note es);
+  N_from : forall w, In w (flat_map ev_note es) -> In w (map fst (r_watch s)) \/ r_nw s <= w < r_nw s';
+  N_gone : forall w, In w (flat_map ev_note es) -> ~ In w (map fst (r_watch s'));
+  N_mono : r_nw s <= r_nw s';
+  N_pending : forall w, In w (map fst (r_watch s')) -> In w (map fst (r_watch s)) \/ r_nw s <= w < r_nw s';
+  N_all : forall w, w < r_nw s' ->
+          In w (map fst (r_watch s')) \/ In w (flat_map ev_note es) \/
+          (w < r_nw s /\ ~ In w (map fst (r_watch s)))
+}.
+
+Lemma nonote_step s es s' :
+  WF s' -> NoDup (flat_map ev_res es) ->
+  (forall k, In k (flat_map ev_res es) -> memN k (r_res s) = false) ->
+  (forall k, memN k (r_res s') = true <-> memN k (r_res s) = true \/ In k (flat_map ev_res es)) ->
+  (r_lost s = true -> r_lost s' = true /\ quiet es = true) ->
+  flat_map ev_note es = [] -> r_watch s' = r_watch s -> r_nw s' = r_nw s ->
+  StepFacts s es s'.
+Proof.
+  intros H1 H2 H3 H4 H5 Hn Hw Hnw. constructor; auto; rewrite ?Hn, ?Hw, ?Hnw.
+  - constructor.
+  - intros w [].
+  - intros w [].
+  - lia.
+  - intros w Hx. now left.
+  - intros w Hx. destruct (in_dec N.eq_dec w (map fst (r_watch s))) as [Hi|Hi]; [now left|right; right; split; assumption].
+Qed.
+
+Ltac wf_fields := constructor; cbn [r_n r_res r_a r_w r_lost r_watch r_nw].
+
+Lemma step_facts s o s' es : WF s -> r_step s o = Some (s', es) -> StepFacts s es s'.
+Proof.
+  intros [Wlt Wans [Wle1 Wle2] Wdead Wwlt Wwnd Wwdead] H. destruct o as [|k| |b|]; cbn [r_step] in H.
+  - (* submit *)
+    assert (Hnew : memN (r_n s) (r_res s) = false).
+    { destruct (memN (r_n s) (r_res s)) eqn:E; [|reflexivity]. apply Wlt in E. lia. }
+    destruct (r_lost s) eqn:El.
+    + injection H as <- <-. apply nonote_step; cbn [r_n r_res r_a r_w r_lost r_watch r_nw flat_map ev_res ev_note app]; try reflexivity.
+      * wf_fields.
+        -- intros k. cbn [memN]. rewrite orb_true_iff, N.eqb_eq. intros [<-|Hk]; [lia|]. apply Wlt in Hk. lia.
+        -- intros k Hk. cbn [memN]. rewrite (Wans k Hk). apply orb_true_r.
+        -- lia.
+        -- intros _ k Hk. cbn [memN]. destruct (N.eqb_spec (r_n s) k) as [|Hne]; [reflexivity|].
+           cbn [orb]. apply (Wdead eq_refl). lia.
+        -- exact Wwlt.
+        -- exact Wwnd.
+        -- intros _. exact (Wwdead eq_refl).
+      * constructor; [intros []|constructor].
+      * intros k [<-|[]]. exact Hnew.
+      * intros k. cbn [memN In]. rewrite orb_true_iff, N.eqb_eq. tauto.
+      * intros _. split; reflexivity.
+    + destruct (r_w s =? r_a s); injection H as <- <-.
+      * apply nonote_step; cbn [r_n r_res r_a r_w r_lost r_watch r_nw flat_map ev_res ev_note app]; try reflexivity.
+        -- wf_fields; [intros k Hk; apply Wlt in Hk; lia|exact Wans|lia|intros Hx; discriminate Hx|exact Wwlt|exact Wwnd|intros Hx; discriminate Hx].
+        -- constructor.
+        -- intros k [].
+        -- intros k; cbn; tauto.
+        -- rewrite El. intros Hx; discriminate Hx.
+      * apply nonote_step; cbn [r_n r_res r_a r_w r_lost r_watch r_nw flat_map ev_res ev_note app]; try reflexivity.
+        -- wf_fields; [intros k Hk; apply Wlt in Hk; lia|exact Wans|lia|intros Hx; discriminate Hx|exact Wwlt|exact Wwnd|intros Hx; discriminate Hx].
+        -- constructor.
+        -- intros k [].
+        -- intros k; cbn; tauto.
+        -- rewrite El. intros Hx; discriminate Hx.
+  - (* cancel *)
+    destruct ((k <? r_n s) && negb (memN k (r_res s))) eqn:E.
+    + injection H as <- <-. apply andb_prop in E. destruct E as [E1 E2].
+      apply N.ltb_lt in E1. apply negb_true_iff in E2.
+      apply nonote_step; cbn [r_n r_res r_a r_w r_lost r_watch r_nw flat_map ev_res ev_note app]; try reflexivity.
+      * wf_fields.
+        -- intros j. cbn [memN]. rewrite orb_true_iff, N.eqb_eq. intros [<-|Hj]; [exact E1|now apply Wlt].
+        -- intros j Hj. cbn [memN]. rewrite (Wans j Hj). apply orb_true_r.
+        -- lia.
+        -- intros Hl j Hj. cbn [memN]. rewrite (Wdead Hl j Hj). apply orb_true_r.
+        -- exact Wwlt.
+        -- exact Wwnd.
+        -- exact Wwdead.
+      * constructor; [intros []|constructor].
+      * intros j [<-|[]]. exact E2.
+      * intros j. cbn [memN In]. rewrite orb_true_iff, N.eqb_eq. tauto.
+      * intros Hl. split; [exact Hl|reflexivity].
+    + injection H as <- <-. apply nonote_step; try reflexivity.
+      * constructor; [exact Wlt|exact Wans|lia|exact Wdead|exact Wwlt|exact Wwnd|exact Wwdead].
+      * constructor.
+      * intros j [].
+      * intros j; cbn; tauto.
+      * intros Hl. split; [exact Hl|reflexivity].
+  - (* reply *)
+    destruct (r_lost s) eqn:El; [discriminate H|]. cbn [orb] in H.
+    destruct (N.ltb_spec (r_a s) (r_w s)) as [Hlt|Hge]; cbn [negb] in H; [|discriminate H].
+    injection H as <- <-.
+    assert (Hids : flat_map ev_res ((if memN (r_a s) (r_res s) then [] else [QRes (r_a s) QOk]) ++
+                                   (if r_w s <? r_n s then [QWrote (r_w s)] else []))
+                   = if memN (r_a s) (r_res s) then [] else [r_a s]).
+    { destruct (memN (r_a s) (r_res s)); destruct (r_w s <? r_n s); reflexivity. }
+    assert (Hnotes : flat_map ev_note ((if memN (r_a s) (r_res s) then [] else [QRes (r_a s) QOk]) ++
+                                      (if r_w s <? r_n s then [QWrote (r_w s)] else [])) = []).
+    { destruct (memN (r_a s) (r_res s)); destruct (r_w s <? r_n s); reflexivity. }
+    apply nonote_step; cbn [r_n r_res r_a r_w r_lost r_watch r_nw]; try reflexivity; rewrite ?Hids.
+    + wf_fields.
+      * intros j. cbn [memN]. rewrite orb_true_iff, N.eqb_eq. intros [<-|Hj]; [lia|now apply Wlt].
+      * intros j Hj. cbn [memN]. destruct (N.eqb_spec (r_a s) j) as [|Hne]; [reflexivity|].
+        cbn [orb]. apply Wans. lia.
+      * destruct (N.ltb_spec (r_w s) (r_n s)); lia.
+      * intros Hx; discriminate Hx.
+      * exact Wwlt.
+      * exact Wwnd.
+      * intros Hx; discriminate Hx.
+    + destruct (memN (r_a s) (r_res s)); [constructor|constructor; [intros []|constructor]].
+    + intros j Hj. destruct (memN (r_a s) (r_res s)) eqn:E; [destruct Hj|].
+      destruct Hj as [<-|[]]. exact E.
+    + intros j. cbn [memN]. rewrite orb_true_iff, N.eqb_eq.
+      destruct (memN (r_a s) (r_res s)) eqn:E; cbn [In]; [|tauto].
+      split; [intros [<-|Hj]; [left; exact E|left; exact Hj]|intros [Hj|[]]; right; exact Hj].
+    + rewrite El. intros Hx; discriminate Hx.
+    + exact Hnotes.
+  - (* a notification request *)
+    destruct (r_lost s) eqn:El.
+    + (* after the loss *)
+      assert (Hw0 : r_watch s = []) by (exact (Wwdead eq_refl)).
+      destruct (tell_fold_facts false [(r_nw s, b)] [] (r_n s) (r_res s) (r_nw s + 1))
+        as (d & n' & res' & nw' & Hf & F).
+      { cbn [map fst In]. intros w [<-|[]]. lia. }
+      { cbn [map fst]. constructor; [intros []|constructor]. }
+      cbn [fold_left app] in Hf. rewrite Hf in H. injection H as <- <-.
+      destruct F as [F1 F2 F3 F4 F5 F6 F7 F8 F9].
+      constructor; cbn [r_n r_res r_a r_w r_lost r_watch r_nw map fst In].
+      * wf_fields.
+        -- intros k Hk. apply F5 in Hk. destruct Hk as [Hk|Hk]; [apply Wlt in Hk; lia|specialize (F4 k Hk); lia].
+        -- intros k Hk. apply F5. left. now apply Wans.
+        -- lia.
+        -- intros _ k Hk. apply F5. destruct (N.lt_ge_cases k (r_n s)) as [Hlt|Hge].
+           ++ left. exact (Wdead eq_refl k Hlt).
+           ++ right. apply (F9 eq_refl). lia.
+        -- intros w [].
+        -- constructor.
+        -- reflexivity.
+      * exact F3.
+      * intros k Hk. specialize (F4 k Hk). destruct (memN k (r_res s)) eqn:E; [|reflexivity].
+        apply Wlt in E. lia.
+      * exact F5.
+      * intros _. split; [reflexivity|exact F8].
+      * exact F6.
+      * intros w Hw. apply F7 in Hw. cbn [map fst In] in Hw. right. lia.
+      * intros w Hw [].
+      * lia.
+      * intros w [].
+      * intros w Hw. right. destruct (N.lt_ge_cases w (r_nw s)) as [Hlt|Hge].
+        -- right. split; [exact Hlt|]. rewrite Hw0. intros [].
+        -- left. apply F7. cbn [map fst In]. destruct (N.eq_dec (r_nw s) w) as [E|E]; [left; now left|right; lia].
+    + injection H as <- <-.
+      constructor; cbn [r_n r_res r_a r_w r_lost r_watch r_nw flat_map ev_res ev_note]; rewrite ?map_app; cbn [map fst].
+      * wf_fields; rewrite ?map_app; cbn [map fst].
+        -- exact Wlt.
+        -- exact Wans.
+        -- lia.
+        -- intros Hx; discriminate Hx.
+        -- intros w Hw. apply in_app_iff in Hw. destruct Hw as [Hw|[<-|[]]]; [specialize (Wwlt w Hw); lia|lia].
+        -- apply NoDup_app_disj; [exact Wwnd|constructor; [intros []|constructor]|].
+           intros w Hw [<-|[]]. specialize (Wwlt _ Hw). lia.
+        -- intros Hx; discriminate Hx.
+      * constructor.
+      * intros k [].
+      * intros k. cbn [In]. tauto.
+      * rewrite El. intros Hx; discriminate Hx.
+      * constructor.
+      * intros w [].
+      * intros w [].
+      * lia.
+      * intros w Hw. apply in_app_iff in Hw. destruct Hw as [Hw|[<-|[]]]; [now left|right; lia].
+      * intros w Hw. destruct (N.lt_ge_cases w (r_nw s)) as [Hlt|Hge].
+        -- destruct (in_dec N.eq_dec w (map fst (r_watch s))) as [Hi|Hi].
+           ++ left. apply in_app_iff. now left.
+           ++ right. right. split; assumption.
+        -- left. apply in_app_iff. right. left. lia.
+  - (* loss *)
+    destruct (r_lost s) eqn:El; [discriminate H|].
+    destruct (tell_fold_facts (r_a s <? r_w s) (r_watch s) [] (r_n s) (r_res s) (r_nw s) Wwlt Wwnd)
+      as (d & n' & res' & nw' & Hf & F).
+    rewrite Hf in H. cbn [app] in H. injection H as <- <-.
+    destruct F as [F1 F2 F3 F4 F5 F6 F7 F8 F9].
+    unfold unresolved.
+    set (out := filter (fun k => negb (memN k res')) (seqN (r_a s) (N.to_nat (n' - r_a s)))).
+    assert (Hout : forall j, In j out <-> (r_a s <= j < n' /\ memN j res' = false)).
+    { intros j. unfold out. rewrite filter_In, seqN_In, negb_true_iff.
+      split; intros [H1 H2]; (split; [lia|exact H2]). }
+    assert (Hres_ev : flat_map ev_res (d ++ map (fun k => QRes k QDisc) out) = flat_map ev_res d ++ out)
+      by (rewrite flat_map_app, res_of_disc; reflexivity).
+    assert (Hnote_ev : flat_map ev_note (d ++ map (fun k => QRes k QDisc) out) = flat_map ev_note d)
+      by (rewrite flat_map_app, note_of_disc, app_nil_r; reflexivity).
+    constructor; cbn [r_n r_res r_a r_w r_lost r_watch r_nw map fst In]; rewrite ?Hres_ev, ?Hnote_ev.
+    + wf_fields.
+      * intros j. rewrite memN_app, orb_true_iff, memN_In, Hout. intros [[Hj _]|Hj]; [lia|].
+        apply F5 in Hj. destruct Hj as [Hj|Hj]; [apply Wlt in Hj; lia|specialize (F4 j Hj); lia].
+      * intros j Hj. rewrite memN_app. replace (memN j res') with true; [apply orb_true_r|].
+        symmetry. apply F5. left. now apply Wans.
+      * lia.
+      * intros _ j Hj. rewrite memN_app, orb_true_iff, memN_In, Hout.
+        destruct (memN j res') eqn:E; [right; reflexivity|left].
+        split; [|reflexivity]. split; [|exact Hj].
+        destruct (N.lt_ge_cases j (r_a s)) as [Hlt|Hge]; [|exact Hge].
+        assert (Hx : memN j res' = true) by (apply F5; left; now apply Wans). rewrite Hx in E. discriminate E.
+      * intros w [].
+      * constructor.
+      * reflexivity.
+    + apply NoDup_app_disj; [exact F3|unfold out; apply NoDup_filter, seqN_NoDup|].
+      intros j Hj Hj2. apply Hout in Hj2. destruct Hj2 as [_ Hj2].
+      assert (Hx : memN j res' = true) by (apply F5; now right). rewrite Hx in Hj2. discriminate Hj2.
+    + intros j Hj. apply in_app_iff in Hj. destruct Hj as [Hj|Hj].
+      * specialize (F4 j Hj). destruct (memN j (r_res s)) eqn:E; [|reflexivity]. apply Wlt in E. lia.
+      * apply Hout in Hj. destruct Hj as [_ Hj]. destruct (memN j (r_res s)) eqn:E; [|reflexivity].
+        assert (Hx : memN j res' = true) by (apply F5; now left). rewrite Hx in Hj. discriminate Hj.
+    + intros j. rewrite memN_app, orb_true_iff, memN_In, F5, in_app_iff. tauto.
+    + rewrite El. intros Hx; discriminate Hx.
+    + exact F6.
+    + intros w Hw. apply F7 in Hw. exact Hw.
+    + intros w Hw [].
+    + exact F2.
+    + intros w [].
+    + intros w Hw. right. destruct (N.lt_ge_cases w (r_nw s)) as [Hlt|Hge].
+      * destruct (in_dec N.eq_dec w (map fst (r_watch s))) as [Hi|Hi].
+        -- left. apply F7. now left.
+        -- right. split; assumption.
+      * left. apply F7. right. lia.
+Qed.
+
+Record ExecFacts (s : rstate) (tr : list (list qev)) (s' : rstate) : Prop := {
+  E_wf : WF s';
+  EC_nodup : NoDup (res_ids tr);
+  EC_fresh : forall k, In k (res_ids tr) -> memN k (r_res s) = false;
+  EC_iff : forall k, memN k (r_res s') = true <-> memN k (r_res s) = true \/ In k (res_ids tr);
+  EC_quiet : r_lost s = true -> r_lost s' = true /\ quiet (concat tr) = true;
+  EN_nodup : NoDup (note_ids tr);
+  EN_from : forall w, In w (note_ids tr) -> In w (map fst (r_watch s)) \/ r_nw s <= w < r_nw s';
+  EN_gone : forall w, In w (note_ids tr) -> ~ In w (map fst (r_watch s'));
+  EN_mono : r_nw s <= r_nw s';
+  EN_pending : forall w, In w (map fst (r_watch s')) -> In w (map fst (r_watch s)) \/ r_nw s <= w < r_nw s';
+  EN_all : forall w, w < r_nw s' ->
+           In w (map fst (r_watch s')) \/ In w (note_ids tr) \/ (w < r_nw s /\ ~ In w (map fst (r_watch s)))
+}.
+
+Lemma exec_facts ops : forall s s' tr, WF s -> r_exec s ops = Some (s', tr) -> ExecFacts s tr s'.
 Proof.
   induction ops as [|o ops IH]; intros s s' tr W H; cbn [r_exec] in H.
-  - injection H as <- <-. unfold res_ids. cbn.
-    split; [exact W|]. split; [constructor|]. split; [intros k []|]. split; [intros k; tauto|reflexivity].
+  - injection H as <- <-. unfold res_ids, note_ids.
+    constructor; cbn [concat flat_map].
+    1: exact W. 1: constructor. 1: intros k []. 1: (intros k; split; [intros Hx; now left|intros [Hx|Hx]; [exact Hx|destruct Hx]]).
+    1: (intros Hl; split; [exact Hl|reflexivity]). 1: constructor. 1: intros w []. 1: intros w [].
+    1: lia. 1: (intros w Hw; now left).
+    intros w Hw. destruct (in_dec N.eq_dec w (map fst (r_watch s))) as [Hi|Hi]; [now left|right; right; split; assumption].
   - destruct (r_step s o) as [[s1 es]|] eqn:E1; [|discriminate H].
     destruct (r_exec s1 ops) as [[s2 tr2]|] eqn:E2; [|discriminate H]. injection H as <- <-.
-    destruct (step_facts s o s1 es W E1) as (W1 & N1 & D1 & M1 & L1).
-    destruct (IH s1 s2 tr2 W1 E2) as (W2 & N2 & D2 & M2 & L2).
-    unfold res_ids in *. cbn [concat]. rewrite flat_map_app.
-    split; [exact W2|]. split; [|split; [|split]].
-    + apply NoDup_app_disj; [exact N1|exact N2|].
-      intros k Hk Hk2. apply D2 in Hk2. assert (Hm : memN k (r_res s1) = true) by (apply M1; now right).
+    destruct (step_facts s o s1 es W E1) as [W1 C1 C2 C3 C4 N1 N2 N3 N4 N5 N6].
+    destruct (IH s1 s2 tr2 W1 E2) as [W2 D1 D2 D3 D4 M1 M2 M3 M4 M5 M6].
+    unfold res_ids, note_ids in *.
+    constructor; unfold res_ids, note_ids; cbn [concat]; rewrite ?flat_map_app.
+    + exact W2.
+    + apply NoDup_app_disj; [exact C1|exact D1|].
+      intros k Hk Hk2. apply D2 in Hk2. assert (Hm : memN k (r_res s1) = true) by (apply C3; now right).
       rewrite Hm in Hk2. discriminate Hk2.
-    + intros k Hk. apply in_app_iff in Hk. destruct Hk as [Hk|Hk]; [now apply D1|].
+    + intros k Hk. apply in_app_iff in Hk. destruct Hk as [Hk|Hk]; [now apply C2|].
       apply D2 in Hk. destruct (memN k (r_res s)) eqn:E; [|reflexivity].
-      assert (Hm : memN k (r_res s1) = true) by (apply M1; now left). rewrite Hm in Hk. discriminate Hk.
-    + intros k. rewrite M2, M1, in_app_iff. tauto.
-    + intros Hl. destruct (L1 Hl) as [Hl1 Hw]. rewrite forallb_app, Hw. cbn [andb]. exact (L2 Hl1).
+      assert (Hm : memN k (r_res s1) = true) by (apply C3; now left). rewrite Hm in Hk. discriminate Hk.
+    + intros k. rewrite D3, C3, in_app_iff. tauto.
+    + intros Hl. destruct (C4 Hl) as [Hl1 Hq]. destruct (D4 Hl1) as [Hl2 Hq2].
+      split; [exact Hl2|]. unfold quiet in *. rewrite forallb_app, Hq. exact Hq2.
+    + apply NoDup_app_disj; [exact N1|exact M1|].
+      intros w Hw Hw2. apply M2 in Hw2. destruct Hw2 as [Hw2|Hw2]; [exact (N3 w Hw Hw2)|].
+      apply N2 in Hw. destruct Hw as [Hw|Hw]; [|lia].
+      destruct W as [_ _ _ _ Wwlt _ _]. specialize (Wwlt w Hw). lia.
+    + intros w Hw. apply in_app_iff in Hw. destruct Hw as [Hw|Hw].
+      * apply N2 in Hw. destruct Hw as [Hw|Hw]; [now left|right; lia].
+      * apply M2 in Hw. destruct Hw as [Hw|Hw]; [|right; lia].
+        apply N5 in Hw. destruct Hw as [Hw|Hw]; [now left|right; lia].
+    + intros w Hw. apply in_app_iff in Hw. destruct Hw as [Hw|Hw]; [|now apply M3].
+      intros Hw2. apply M5 in Hw2. destruct Hw2 as [Hw2|Hw2]; [exact (N3 w Hw Hw2)|].
+      apply N2 in Hw. destruct Hw as [Hw|Hw]; [|lia].
+      destruct W as [_ _ _ _ Wwlt _ _]. specialize (Wwlt w Hw). lia.
+    + lia.
+    + intros w Hw. apply M5 in Hw. destruct Hw as [Hw|Hw]; [|right; lia].
+      apply N5 in Hw. destruct Hw as [Hw|Hw]; [now left|right; lia].
+    + intros w Hw. rewrite in_app_iff. destruct (M6 w Hw) as [Hx|[Hx|[Hx1 Hx2]]]; [now left|right; left; now right|].
+      destruct (N6 w Hx1) as [Hy|[Hy|Hy]]; [contradiction|right; left; now left|right; right; exact Hy].
 Qed.
 
-(* the count of submissions *)
-Fixpoint n_submits (ops : list qop) : N :=
-  match ops with [] => 0 | QSubmit :: r => 1 + n_submits r | _ :: r => n_submits r end.
-
-Lemma step_n s o s' es : r_step s o = Some (s', es) ->
-  r_n s' = r_n s + (match o with QSubmit => 1 | _ => 0 end) /\
-  (match o with QLose => r_lost s' = true | _ => True end) /\ (r_lost s = true -> r_lost s' = true).
-Proof.
-  destruct o as [|k| |]; cbn [r_step]; intros H.
-  - destruct (r_lost s); [|destruct (r_w s =? r_a s)]; injection H as <- <-; cbn; (split; [lia|split; [exact I|auto]]).
-  - destruct (_ && _); injection H as <- <-; cbn; (split; [lia|split; [exact I|auto]]).
-  - destruct (r_lost s) eqn:El; cbn [orb] in H; [discriminate H|].
-    destruct (negb (r_a s <? r_w s)); [discriminate H|]. injection H as <- <-. cbn.
-    split; [lia|split; [exact I|intros Hx; discriminate Hx]].
-  - destruct (r_lost s); [discriminate H|]. injection H as <- <-. cbn. split; [lia|split; auto].
-Qed.
-
-Lemma exec_n ops : forall s s' tr, r_exec s ops = Some (s', tr) ->
-  r_n s' = r_n s + n_submits ops /\ ((In QLose ops \/ r_lost s = true) -> r_lost s' = true).
-Proof.
-  induction ops as [|o ops IH]; intros s s' tr H; cbn [r_exec] in H.
-  - injection H as <- <-. cbn. split; [lia|]. intros [[]|Hl]; exact Hl.
-  - destruct (r_step s o) as [[s1 es]|] eqn:E1; [|discriminate H].
-    destruct (r_exec s1 ops) as [[s2 tr2]|] eqn:E2; [|discriminate H]. injection H as <- <-.
-    destruct (step_n s o s1 es E1) as (Hn & Hlose & Hkeep). destruct (IH s1 s2 tr2 E2) as [Hn2 Hl2].
-    split; [destruct o; cbn [n_submits]; lia|].
-    intros [[Ho|Hin]|Hl]; apply Hl2; [right; subst o; exact Hlose|left; exact Hin|right; exact (Hkeep Hl)].
-Qed.
-
-(* the property at command level, for every operation sequence of the envelope *)
+(* ---- the property at command level, for every operation sequence of the envelope ---- *)
 Theorem cancel_resolved_at_most_once ops tr : q_ref ops = Some tr -> NoDup (res_ids tr).
 Proof.
   unfold q_ref. rewrite r_exec_run. destruct (r_exec r_init ops) as [[s' tr']|] eqn:E; [|discriminate].
-  cbn. intros H. injection H as <-. exact (proj1 (proj2 (exec_facts ops _ _ _ wf_init E))).
+  cbn. intros H. injection H as <-. exact (EC_nodup _ _ _ (exec_facts ops _ _ _ wf_init E)).
 Qed.
 
-Theorem cancel_all_resolved_after_loss ops tr : q_ref ops = Some tr -> In QLose ops ->
-  forall k, k < n_submits ops -> In k (res_ids tr).
+Theorem cancel_all_resolved_after_loss ops s' tr : r_exec r_init ops = Some (s', tr) -> r_lost s' = true ->
+  forall k, k < r_n s' -> In k (res_ids tr).
+Proof.
+  intros E Hl k Hk. destruct (exec_facts ops _ _ _ wf_init E) as [W _ _ M _ _ _ _ _ _ _].
+  assert (Hm : memN k (r_res s') = true) by (exact (W_dead _ W Hl k Hk)).
+  apply M in Hm. destruct Hm as [Hm|Hm]; [discriminate Hm|exact Hm].
+Qed.
+
+Theorem cancel_notified_at_most_once ops tr : q_ref ops = Some tr -> NoDup (note_ids tr).
 Proof.
   unfold q_ref. rewrite r_exec_run. destruct (r_exec r_init ops) as [[s' tr']|] eqn:E; [|discriminate].
-  cbn. intros H Hl k Hk. injection H as <-.
-  destruct (exec_facts ops _ _ _ wf_init E) as (W & _ & _ & M & _).
-  destruct (exec_n ops _ _ _ E) as [Hn Hlost]. cbn in Hn.
-  assert (Hm : memN k (r_res s') = true) by (apply (W_dead _ W); [apply Hlost; now left|lia]).
-  apply M in Hm. destruct Hm as [Hm|Hm]; [discriminate Hm|exact Hm].
+  cbn. intros H. injection H as <-. exact (EN_nodup _ _ _ (exec_facts ops _ _ _ wf_init E)).
+Qed.
+
+Theorem cancel_all_notified_after_loss ops s' tr : r_exec r_init ops = Some (s', tr) -> r_lost s' = true ->
+  forall w, w < r_nw s' -> In w (note_ids tr).
+Proof.
+  intros E Hl w Hw. destruct (exec_facts ops _ _ _ wf_init E) as [W _ _ _ _ _ _ _ _ _ A].
+  destruct (A w Hw) as [Hx|[Hx|[Hx _]]]; [|exact Hx|cbn in Hx; lia].
+  rewrite (W_wdead _ W Hl) in Hx. destruct Hx.
+Qed.
+
+Lemma step_lost s o s' es : r_step s o = Some (s', es) ->
+  (match o with QLose => r_lost s' = true | _ => True end) /\ (r_lost s = true -> r_lost s' = true).
+Proof.
+  destruct o as [|k| |b|]; cbn [r_step]; intros H.
+  - destruct (r_lost s); [|destruct (r_w s =? r_a s)]; injection H as <- <-; cbn; (split; [exact I|auto]).
+  - destruct (_ && _); injection H as <- <-; cbn; (split; [exact I|auto]).
+  - destruct (r_lost s) eqn:El; cbn [orb] in H; [discriminate H|].
+    destruct (negb (r_a s <? r_w s)); [discriminate H|]. injection H as <- <-. cbn.
+    split; [exact I|intros Hx; discriminate Hx].
+  - destruct (r_lost s) eqn:El.
+    + destruct (tell false _ _) as [[[ev n] res] nw]. injection H as <- <-. cbn. split; [exact I|auto].
+    + injection H as <- <-. cbn. split; [exact I|intros Hx; discriminate Hx].
+  - destruct (r_lost s); [discriminate H|].
+    destruct (fold_left _ _ _) as [[[ev n] res] nw]. injection H as <- <-. cbn. split; auto.
+Qed.
+
+Lemma exec_lost ops : forall s s' tr, r_exec s ops = Some (s', tr) ->
+  (In QLose ops \/ r_lost s = true) -> r_lost s' = true.
+Proof.
+  induction ops as [|o ops IH]; intros s s' tr H; cbn [r_exec] in H.
+  - injection H as <- <-. intros [[]|Hl]; exact Hl.
+  - destruct (r_step s o) as [[s1 es]|] eqn:E1; [|discriminate H].
+    destruct (r_exec s1 ops) as [[s2 tr2]|] eqn:E2; [|discriminate H]. injection H as <- <-.
+    destruct (step_lost s o s1 es E1) as (Hlose & Hkeep).
+    intros [[Ho|Hin]|Hl]; apply (IH s1 s2 tr2 E2); [right; subst o; exact Hlose|left; exact Hin|right; exact (Hkeep Hl)].
 Qed.
 
 Lemma r_exec_app a : forall s b,
@@ -398,31 +833,34 @@ Proof.
     destruct (r_exec s2 b) as [[s3 t2]|]; reflexivity.
 Qed.
 
-Lemma no_wrote_disc l : forallb (fun e => negb (is_wrote e)) (map (fun k => QRes k QDisc) l) = true.
-Proof. induction l as [|x l IH]; [reflexivity|exact IH]. Qed.
+Lemma r_exec_length ops : forall s s' tr, r_exec s ops = Some (s', tr) -> length tr = length ops.
+Proof.
+  induction ops as [|o ops IH]; intros s s' tr H; cbn [r_exec] in H.
+  - now injection H as <- <-.
+  - destruct (r_step s o) as [[s1 es]|]; [|discriminate H].
+    destruct (r_exec s1 ops) as [[s2 tr2]|] eqn:E2; [|discriminate H]. injection H as <- <-.
+    cbn [length]. f_equal. exact (IH _ _ _ E2).
+Qed.
 
+(* from the loss on (its own operation excepted: nothing is written there either) nothing is written *)
 Theorem cancel_nothing_written_after_loss pre post tr :
-  q_ref (pre ++ QLose :: post) = Some tr ->
-  forallb (fun e => negb (is_wrote e)) (concat (skipn (length pre) tr)) = true.
+  q_ref (pre ++ QLose :: post) = Some tr -> quiet (concat (skipn (length pre) tr)) = true.
 Proof.
   unfold q_ref. rewrite r_exec_run, r_exec_app.
   destruct (r_exec r_init pre) as [[s1 t1]|] eqn:E1; [|discriminate].
   destruct (r_exec s1 (QLose :: post)) as [[s2 t2]|] eqn:E2; [|discriminate].
   cbn [option_map snd]. intros H. injection H as <-.
-  assert (Hlen : length t1 = length pre).
-  { clear E2. revert s1 t1 E1. generalize r_init. induction pre as [|o pre IH]; intros s0 s1 t1 E1; cbn [r_exec] in E1.
-    - now injection E1 as <- <-.
-    - destruct (r_step s0 o) as [[sa es]|]; [|discriminate E1].
-      destruct (r_exec sa pre) as [[sb tb]|] eqn:Eb; [|discriminate E1]. injection E1 as <- <-.
-      cbn [length]. f_equal. exact (IH _ _ _ Eb). }
-  rewrite <- Hlen, skipn_app, Nat.sub_diag, skipn_all. cbn [app skipn].
+  rewrite <- (r_exec_length pre _ _ _ E1), skipn_app, Nat.sub_diag, skipn_all. cbn [app skipn].
   cbn [r_exec] in E2. destruct (r_step s1 QLose) as [[sa es]|] eqn:Es; [|discriminate E2].
   destruct (r_exec sa post) as [[sb tb]|] eqn:Eb; [|discriminate E2]. injection E2 as <- <-.
-  cbn [concat]. rewrite forallb_app. apply andb_true_intro. split.
-  - cbn [r_step] in Es. destruct (r_lost s1); [discriminate Es|]. injection Es as <- <-.
-    apply no_wrote_disc.
-  - assert (Hl : r_lost sa = true) by (exact (proj1 (proj2 (step_n _ _ _ _ Es)))).
-    assert (Wf1 : WF s1) by (exact (proj1 (exec_facts pre _ _ _ wf_init E1))).
-    assert (Wfa : WF sa) by (exact (proj1 (step_facts _ _ _ _ Wf1 Es))).
-    exact (proj2 (proj2 (proj2 (proj2 (exec_facts post _ _ _ Wfa Eb)))) Hl).
+  assert (Wf1 : WF s1) by (exact (E_wf _ _ _ (exec_facts pre _ _ _ wf_init E1))).
+  destruct (step_facts _ _ _ _ Wf1 Es) as [Wfa _ _ _ _ _ _ _ _ _ _].
+  assert (Hl : r_lost sa = true) by (exact (proj1 (step_lost _ _ _ _ Es))).
+  cbn [concat]. unfold quiet. rewrite forallb_app. apply andb_true_intro. split.
+  - cbn [r_step] in Es. destruct (r_lost s1); [discriminate Es|].
+    destruct (tell_fold_facts (r_a s1 <? r_w s1) (r_watch s1) [] (r_n s1) (r_res s1) (r_nw s1)
+                (W_wlt _ Wf1) (W_wnd _ Wf1)) as (d & n' & res' & nw' & Hf & F).
+    rewrite Hf in Es. cbn [app] in Es. injection Es as <- <-.
+    rewrite forallb_app. apply andb_true_intro. split; [exact (T_quiet _ _ _ _ _ _ _ _ _ F)|apply quiet_disc].
+  - exact (proj2 (EC_quiet _ _ _ (exec_facts post _ _ _ Wfa Eb) Hl)).
 Qed.
